@@ -413,6 +413,28 @@ func jwsMutations() []jwsMut {
 			b.SignAlg = a // sign with the declared algorithm wherever the key type admits one
 		})
 	}
+	// algorithm confusion through a case-folded twin of "alg": the exact member (which the JWT
+	// library verifies with) names another size's algorithm and carries a valid signature for it,
+	// the twin names the key's own algorithm
+	add("alg:confusion-fold-twin", func(b *jwsBuild, c *jwsCtx) {
+		other := map[string]string{"PS256": "PS512", "PS384": "PS256", "PS512": "PS384", "ES256": "ES384", "ES384": "ES512", "ES512": "ES256"}[c.id.alg]
+		if other == "" {
+			other = "PS256"
+		}
+		setMember(b, "alg", jsonStr(other))
+		b.SignAlg = other
+		b.Members = append(b.Members, jMember{"Alg", jsonStr(c.id.alg)})
+	})
+	add("alg:confusion-fold-twin-first", func(b *jwsBuild, c *jwsCtx) {
+		other := map[string]string{"PS256": "PS384", "PS384": "PS512", "PS512": "PS256", "ES256": "ES512", "ES384": "ES256", "ES512": "ES384"}[c.id.alg]
+		if other == "" {
+			other = "ES256"
+		}
+		setMember(b, "alg", jsonStr(other))
+		b.SignAlg = other
+		b.Members = append([]jMember{{"ALG", jsonStr(c.id.alg)}}, b.Members...)
+		b.Members = append(b.Members, jMember{"aLg", jsonStr(c.id.alg)})
+	})
 	// certificates
 	add("x5c:empty", func(b *jwsBuild, c *jwsCtx) { b.X5cRaw = [][]byte{} })
 	add("x5c:leaf-garbage", func(b *jwsBuild, c *jwsCtx) { b.X5cRaw = append([][]byte{[]byte("not a certificate")}, ders(c.id.chain[1:])...) })
